@@ -360,6 +360,24 @@ def compare(ctx, kind, ctor, ops, segs, src, mods):
                 if not lev_ok or abs(fd - hd) >= max(fn, hn, 1):
                     same = False
         if not same:
+            # a one-count duty difference (allowed) can merge adjacent steps differently on the two sides: compare step by step as well
+            def steps(evs):
+                out, cur = [], None
+                for k, v in evs:
+                    if k == "level":
+                        cur = v
+                    else:
+                        out.append((cur, v))
+                return out, cur
+            (fs, flast), (hs, hlast) = steps(fev), steps(hev2)
+
+            def lev_close(a, b):
+                if kind == "motor" and isinstance(a, tuple) and isinstance(b, tuple):
+                    return a[:2] == b[:2] and abs(a[2] - b[2]) <= 1
+                return a == b
+            if len(fs) == len(hs) and lev_close(flast, hlast) and all(lev_close(a, b) and abs(x - y) < 1 for (a, x), (b, y) in zip(fs, hs)):
+                same = True
+        if not same:
             key = f"{kind}:timeline"
             if kind == "rgb" and ops[i][0] == "fade":
                 key = "rgb:fade-half-rounding" if _fade_tie(ops, i, mods) else key
